@@ -2393,7 +2393,11 @@ impl Formatter {
     if self.html {
       format!("<span class=\"mech-range-expression\"><span class=\"mech-range-start\">{}</span><span class=\"mech-range-operator\">{}</span><span class=\"mech-range-terminal\">{}</span>{}</span>",start,operator,terminal,increment)
     } else {
-      format!("{}{}{}{}", start, operator, terminal, increment)
+      // Source order is start, increment, terminal: `a..s..=b` steps from a to b by s.
+      match &node.increment {
+        Some(_) => format!("{}{}{}{}", start, increment, operator, terminal),
+        None => format!("{}{}{}", start, operator, terminal),
+      }
     }
   }
 
